@@ -213,16 +213,13 @@ func DuplicateKey(doc interface{}, p JSONPos, second interface{}) (string, bool)
 	return strings.Replace(text, string(mb), "{"+strings.Join(parts, ",")+"}", 1), true
 }
 
-// ShadowSection renders doc (an object) with its top-level member 'section' written twice: first, under
-// the key 'firstKey' (the same key, or one differing in letter case only), the value 'first'; then the
-// other members as they are. A JSON schema validator looks at the last occurrence of a key (and not at all
-// at a key it does not know), a decoder filling structs also takes in the earlier one.
-func ShadowSection(doc interface{}, section, firstKey string, first interface{}) (string, bool) {
+// ShadowSection renders doc (an object) with an extra top-level member: 'extraKey': 'extra', written before
+// all the other members (after == false) or after them (after == true). A JSON schema validator looks at
+// the last occurrence of a key and not at all at a key it does not know; a decoder filling structs takes
+// in every occurrence, in order, matching keys regardless of letter case.
+func ShadowSection(doc interface{}, extraKey string, extra interface{}, after bool) (string, bool) {
 	top, ok := doc.(map[string]interface{})
 	if !ok {
-		return "", false
-	}
-	if _, ok := top[section]; !ok {
 		return "", false
 	}
 	keys := make([]string, 0, len(top))
@@ -230,11 +227,18 @@ func ShadowSection(doc interface{}, section, firstKey string, first interface{})
 		keys = append(keys, k)
 	}
 	sort.Strings(keys)
-	kb, _ := json.Marshal(firstKey)
-	parts := []string{string(kb) + ":" + Marshal(first)}
+	kb, _ := json.Marshal(extraKey)
+	extraPart := string(kb) + ":" + Marshal(extra)
+	var parts []string
+	if !after {
+		parts = append(parts, extraPart)
+	}
 	for _, k := range keys {
 		kb, _ := json.Marshal(k)
 		parts = append(parts, string(kb)+":"+Marshal(top[k]))
+	}
+	if after {
+		parts = append(parts, extraPart)
 	}
 	return "{" + strings.Join(parts, ",") + "}", true
 }
